@@ -6,6 +6,7 @@ import VK.Model.Codec
 import VK.Model.Transfers
 import VK.Model.Clean
 import VK.Model.Validate
+import VK.Model.Veto
 import VK.Model.Replay
 import VK.Model.Metric
 import VK.Model.BallotGraph
@@ -268,6 +269,13 @@ def handle (j : Json) : D Json := do
     let m ← getInt (← field j "m")
     let ω ← getRDOracle j
     pure (jOutcome jStates (boostedRun p m ω))
+  | "plurality_veto" => do
+    let p ← getProfile (← field j "profile")
+    let m ← getInt (← field j "m")
+    let tb ← getTB (fieldD j "tiebreak" .null)
+    let order ← getList getNat (fieldD j "order" .null)
+    let smp ← getList getCands (fieldD j "samples" .null)
+    pure (jOutcome jStates (pluralityVetoRun p m tb { order := order, samples := smp }))
   | "fractional_transfer" => do
     let w ← getNat (← field j "winner")
     let fpv ← getRat (← field j "fpv")
